@@ -327,9 +327,9 @@ impl Check for NftEnumerable {
     }
     fn runs(&self, tier: Tier) -> u64 {
         if tier == Tier::Quick {
-            400
+            1200
         } else {
-            30_000
+            30000
         }
     }
     fn components(&self) -> serde_json::Value {
